@@ -223,6 +223,14 @@ class PFlow(BaseRoutine):
         """
 
         system = self.system
+
+        # a failed `System.setup` (e.g., a reference to a non-existent device) leaves `is_setup`
+        # False with a non-zero exit code; do not solve on that state and do not reset the exit code
+        if not system.is_setup:
+            logger.error("System is not set up successfully. Power flow will not run.")
+            system.exit_code += 1
+            return False
+
         if self.config.check_conn == 1:
             self.system.connectivity()
 
